@@ -34,6 +34,7 @@ fn main() {
 		verbose: false,
 		scale: 1.0,
 		max_seconds: 1e9,
+		known: Vec::new(),
 	};
 	let mut out: Option<String> = None;
 	let mut i = 2;
@@ -60,6 +61,10 @@ fn main() {
 			"--max-seconds" => {
 				i += 1;
 				cfg.max_seconds = args[i].parse().unwrap_or_else(|_| usage());
+			}
+			"--known" => {
+				i += 1;
+				cfg.known = args[i].split(';').filter(|s| !s.is_empty()).map(|s| s.to_string()).collect();
 			}
 			"--out" => {
 				i += 1;
@@ -97,6 +102,9 @@ fn main() {
 		"dupfam" => props::dupfam::run(&cfg),
 		"keyfam" => props::keyfam::run(&cfg),
 		"nonacqfam" => props::nonacqfam::run(&cfg),
+		"panicfam" => props::panicfam::run(&cfg),
+		"poisonfam" => props::poisonfam::run(&cfg, false),
+		"poisonsoak" => props::poisonfam::run(&cfg, true),
 		"orderfam" => props::orderfam::run(&cfg),
 		"seqfam" => props::seqfam::run(&cfg),
 		"tryfam" => props::tryfam::run(&cfg),
